@@ -15,11 +15,11 @@
 #include <unistd.h>
 #include "c08_pert.h"
 
-volatile int c08_pert_mode = 0;
-volatile uint64_t c08_pert_seed = 1;
-volatile unsigned c08_pert_usec = 300;
-volatile uint64_t c08_pert_ops = 0;          // number of wrapped operations (evidence)
-volatile uint64_t c08_pert_threads = 0;      // worker threads created
+int c08_pert_mode = 0;               // all accessed with __atomic builtins
+uint64_t c08_pert_seed = 1;
+unsigned c08_pert_usec = 300;
+uint64_t c08_pert_ops = 0;          // number of wrapped operations (evidence)
+uint64_t c08_pert_threads = 0;      // worker threads created
 
 static __thread int t_is_worker = 0;
 static __thread uint64_t t_rng = 0;
@@ -36,7 +36,7 @@ static uint64_t rnd(void)
 {
 	if (t_rng == 0) {
 		uint64_t ord = __atomic_add_fetch(&c08_pert_ops, 0, __ATOMIC_RELAXED);
-		t_rng = (c08_pert_seed * 0x9E3779B97F4A7C15ull) ^ (uint64_t)(uintptr_t)&t_rng ^ (ord << 17) ^ 0x1234567ull;
+		t_rng = (__atomic_load_n(&c08_pert_seed, __ATOMIC_RELAXED) * 0x9E3779B97F4A7C15ull) ^ (uint64_t)(uintptr_t)&t_rng ^ (ord << 17) ^ 0x1234567ull;
 		if (t_rng == 0) t_rng = 88172645463325252ull;
 	}
 	uint64_t x = t_rng;
@@ -47,7 +47,7 @@ static uint64_t rnd(void)
 
 static void jitter(int is_lock)
 {
-	int m = c08_pert_mode;
+	int m = __atomic_load_n(&c08_pert_mode, __ATOMIC_RELAXED);
 	if (m == 0)
 		return;
 	__atomic_add_fetch(&c08_pert_ops, 1, __ATOMIC_RELAXED);
@@ -60,7 +60,7 @@ static void jitter(int is_lock)
 	}
 	if (is_lock && t_is_worker) {
 		if (m == 3 || (m == 2 && (rnd() & 1)))
-			usleep(c08_pert_usec);
+			usleep(__atomic_load_n(&c08_pert_usec, __ATOMIC_RELAXED));
 	}
 }
 
